@@ -78,6 +78,7 @@ pub fn exec(case: &J, acc: &mut Acc) -> Result<(), Fail> {
         // (position, first result, second result, view diff, nontrivial facts)
         let mut report: Vec<(usize, String, String, Option<String>, bool)> = vec![];
         let mut kept: Vec<Obs> = vec![];
+        let mut refused_calls = 0u64;
         for (i, op) in ops.iter().enumerate().chain(std::iter::once((ops.len(), &HostOp::Save))) {
             for (at, call) in &injections {
                 if *at != i {
@@ -98,16 +99,58 @@ pub fn exec(case: &J, acc: &mut Acc) -> Result<(), Fail> {
                 let second = show_trace(&h.trace).join(" ; ");
                 h.trace.clear();
                 let after = filter_view(&h.view(), &funcs);
-                report.push((i, first, second, before.diff(&after), nt));
+                let mut vdiff = before.diff(&after);
+                // refused evaluations: unknown, empty and blank names, and an argument of a type
+                // a host cannot pass (a divert target read back from a planted global), alone and
+                // behind an acceptable argument. Each must return Err and change nothing: neither
+                // what the host sees nor the save.
+                if vdiff.is_none() {
+                    let save_before = h.canonical_save();
+                    let dt = h.story.get_variable("zz_dt").filter(|v| matches!(v, bladeink::value_type::ValueType::DivertTarget(_)));
+                    let fname = funcs.first().cloned().unwrap_or_default();
+                    let mut attempts: Vec<(String, Option<Vec<bladeink::value_type::ValueType>>)> = vec![
+                        ("zz_no_such_function".into(), None),
+                        (String::new(), None),
+                        ("  ".into(), None),
+                    ];
+                    if let (Some(dt), false) = (dt, fname.is_empty()) {
+                        attempts.push((fname.clone(), Some(vec![dt.clone()])));
+                        attempts.push((fname.clone(), Some(vec![bladeink::value_type::ValueType::Int(7), dt])));
+                    }
+                    for (name, args) in attempts {
+                        let mut out = String::new();
+                        let r = h.story.evaluate_function(&name, args.as_ref(), &mut out);
+                        h.trace.clear();
+                        h.log.borrow_mut().clear();
+                        refused_calls += 1;
+                        if r.is_ok() {
+                            vdiff = Some(format!("evaluate_function({name:?}, {} argument(s), the last of a refused type or the name unknown) was accepted", args.as_ref().map(|a| a.len()).unwrap_or(0)));
+                            break;
+                        }
+                        let after = filter_view(&h.view(), &funcs);
+                        if let Some(d) = before.diff(&after) {
+                            vdiff = Some(format!("the refused call evaluate_function({name:?}, {} argument(s)) changed the view: {d}", args.as_ref().map(|a| a.len()).unwrap_or(0)));
+                            break;
+                        }
+                        let save_after = h.canonical_save();
+                        if let (Ok(a), Ok(b)) = (&save_before, &save_after) {
+                            if a != b {
+                                vdiff = Some(format!("the refused call evaluate_function({name:?}, {} argument(s)) changed the save: {}", args.as_ref().map(|a| a.len()).unwrap_or(0), crate::c02::json_diff(a, b)));
+                                break;
+                            }
+                        }
+                    }
+                }
+                report.push((i, first, second, vdiff, nt));
             }
             if i < ops.len() {
                 h.apply(op);
             }
         }
         kept.append(&mut h.trace);
-        Ok::<_, String>((report, kept, h.view(), h.fuel_exhausted()))
+        Ok::<_, String>((report, kept, h.view(), h.fuel_exhausted(), refused_calls))
     });
-    let (report, trace, view, fuel) = match r {
+    let (report, trace, view, fuel, refused_calls) = match r {
         Err(p) => return Err(panic_fail(&p, "history with evaluate_function injected", case)),
         Ok(Err(_)) => return Ok(()),
         Ok(Ok(x)) => x,
@@ -116,6 +159,7 @@ pub fn exec(case: &J, acc: &mut Acc) -> Result<(), Fail> {
         acc.discard("fuel");
         return Ok(());
     }
+    acc.classn("refused_evaluations", refused_calls);
     for (at, first, second, vdiff, nt) in &report {
         if *nt {
             acc.nontrivial(fnv(&format!("{}{}{at}", json_text, ops_to_json(&ops))));
@@ -239,7 +283,9 @@ pub fn run(env: &Env) -> i32 {
                 allow_fallbacks: true,
                 ..HostCfg::default()
             };
-            let case = json!({"source": b.src, "cfg": cfg_to_json(&cfg), "ops": ops_to_json(&ops), "inject": inject, "functions": funcs});
+            // a global holding a divert target: the value of a type evaluate_function refuses
+            let src = if b.src.contains("=== k0") { format!("VAR zz_dt = -> k0\n{}", b.src) } else { b.src.clone() };
+            let case = json!({"source": src, "cfg": cfg_to_json(&cfg), "ops": ops_to_json(&ops), "inject": inject, "functions": funcs});
             acc.sample(|| case.clone());
             exec(&case, acc)
         },
